@@ -261,40 +261,47 @@ func (c *FC) anchors(ins []ssa.Instruction) []ssa.Instruction {
 // lies behind it.
 func (c *FC) viaAnchors(ins []ssa.Instruction) []ssa.Instruction {
 	var out []ssa.Instruction
+	byOwner := map[*ssa.Function][]ssa.Instruction{}
+	var owners []*ssa.Function
 	for _, in := range ins {
 		owner := in.Parent()
 		if owner == c.fn || owner == nil {
 			out = append(out, in)
 			continue
 		}
+		if _, ok := byOwner[owner]; !ok {
+			owners = append(owners, owner)
+		}
+		byOwner[owner] = append(byOwner[owner], in)
+	}
+	// the witnesses inside one helper count jointly: every normal return of the helper lies
+	// behind one of them (`if c { A() } else { B() }` for "A or B happens"); then the call of
+	// the helper is the witness one level up, and so on to fn
+	for _, owner := range owners {
 		sites := c.vof[owner]
 		if len(sites) == 0 {
 			continue
 		}
 		ok := true
-		cur := in
-		for _, vs := range sites[:1] {
-			// climb from the innermost helper to fn
-			for level := vs; level != nil; {
-				fi := c.p.info(level.h)
-				hx := level.hx
-				for _, r := range allReturns(level.h) {
-					if c.p.exitKind(hx, r) == "error" {
-						continue
-					}
-					if fi.entryReachesAvoiding(r, []ssa.Instruction{cur}) {
-						ok = false
-					}
+		cur := byOwner[owner]
+		for level := sites[0]; level != nil; {
+			fi := c.p.info(level.h)
+			for _, r := range allReturns(level.h) {
+				if c.p.exitKind(level.hx, r) == "error" {
+					continue
 				}
-				cur = level.call
-				var up *vsite
-				if level.call.Parent() != c.fn {
-					if ups := c.vof[level.call.Parent()]; len(ups) > 0 {
-						up = ups[0]
-					}
+				if fi.entryReachesAvoiding(r, cur) {
+					ok = false
 				}
-				level = up
 			}
+			cur = []ssa.Instruction{level.call}
+			var up *vsite
+			if level.call.Parent() != c.fn {
+				if ups := c.vof[level.call.Parent()]; len(ups) > 0 {
+					up = ups[0]
+				}
+			}
+			level = up
 		}
 		if ok {
 			out = append(out, sites[0].anchor)
@@ -807,19 +814,35 @@ func (c *FC) mustPass(rule, what string, via []ssa.Instruction, targets []ssa.In
 		c.r.fail(rule, key, c.pos(), "required call is absent")
 		return false
 	}
-	via = c.viaAnchors(via)
-	// (this query runs on fn's own graph: every target is represented by its site in fn)
-	var own []ssa.Instruction
+	// a target and witnesses that live in the same new helper: decided inside that helper
+	// (from its entry, the target cannot be reached around the witnesses)
+	rawVia := via
+	var rest []ssa.Instruction
 	for _, t := range targets {
+		owner := t.Parent()
+		if owner != c.fn && owner != nil {
+			var local []ssa.Instruction
+			for _, v := range rawVia {
+				if v.Parent() == owner {
+					local = append(local, v)
+				}
+			}
+			if len(local) > 0 && !c.p.info(owner).entryReachesAvoiding(t, local) {
+				continue
+			}
+		}
+		rest = append(rest, t)
+	}
+	via = c.viaAnchors(via)
+	// (the remaining questions run on fn's own graph: every target is represented by its site in fn)
+	var own []ssa.Instruction
+	for _, t := range rest {
 		own = append(own, c.siteInFn(t))
 	}
+	nTargets := len(targets)
 	targets = own
-	if len(via) == 0 {
+	if len(via) == 0 && len(targets) > 0 {
 		c.r.fail(rule, key, c.pos(), "required call sits in a helper that can return normally without making it")
-		return false
-	}
-	if len(targets) == 0 {
-		c.r.fail(rule, key, c.pos(), "no targets (vacuous)")
 		return false
 	}
 	// reachability over (block, position): forbid executing any via instruction
@@ -830,6 +853,10 @@ func (c *FC) mustPass(rule, what string, via []ssa.Instruction, targets []ssa.In
 			return false
 		}
 	}
+	if len(via) == 0 {
+		via = rawVia
+	}
+	targets = make([]ssa.Instruction, nTargets)
 	c.r.ok(rule, key, c.p.instrPos(via[0]), fmt.Sprintf("all %d targets lie behind %s", len(targets), what))
 	return true
 }
